@@ -205,6 +205,34 @@ type InlineValB struct {
 	Tail  string
 }
 
+// Arrays can be folded (by reflection) but not unfolded.
+type Triple [3]int16
+
+type ArrHolder struct {
+	A [2]string
+	B [3]Inner
+	C Triple
+	D [0]int
+	E []([2]uint8)
+}
+
+// Embeds has anonymous fields (folded and unfolded under the lower-cased type name).
+type Embeds struct {
+	Inner
+	*Simple
+	N int
+}
+
+// SmallPtrs points at values narrower than a word.
+type SmallPtrs struct {
+	A *int8
+	B *uint16
+	C *bool
+	D *float32
+	E *uint8
+	F *int32
+}
+
 type OmitAll struct {
 	S string            `struct:"s,omitempty"`
 	L []int             `struct:"l,omitempty"`
@@ -752,6 +780,66 @@ var Catalogue = []TypeEntry{
 	mk("map[string]uint8", true, func(c *simkit.Choices) map[string]uint8 {
 		return genMap(c, func(c *simkit.Choices) uint8 { return uint8(c.N(256)) })
 	}),
+	mk("[]int16", false, func(c *simkit.Choices) []int16 {
+		return genSlice(c, func(c *simkit.Choices) int16 { return int16(c.N(65536)) })
+	}),
+	mk("[]int32", false, func(c *simkit.Choices) []int32 {
+		return genSlice(c, func(c *simkit.Choices) int32 { return int32(genI(c)) })
+	}),
+	mk("[]uint32", false, func(c *simkit.Choices) []uint32 {
+		return genSlice(c, func(c *simkit.Choices) uint32 { return uint32(genI(c)) })
+	}),
+	mk("[]uint", false, func(c *simkit.Choices) []uint {
+		return genSlice(c, func(c *simkit.Choices) uint { return uint(genU64(c)) })
+	}),
+	mk("map[string]int8", true, func(c *simkit.Choices) map[string]int8 {
+		return genMap(c, func(c *simkit.Choices) int8 { return int8(c.N(256)) })
+	}),
+	mk("map[string]int16", true, func(c *simkit.Choices) map[string]int16 {
+		return genMap(c, func(c *simkit.Choices) int16 { return int16(c.N(65536)) })
+	}),
+	mk("map[string]int32", true, func(c *simkit.Choices) map[string]int32 {
+		return genMap(c, func(c *simkit.Choices) int32 { return int32(genI(c)) })
+	}),
+	mk("map[string]int64", true, func(c *simkit.Choices) map[string]int64 { return genMap(c, genI) }),
+	mk("map[string]uint", true, func(c *simkit.Choices) map[string]uint {
+		return genMap(c, func(c *simkit.Choices) uint { return uint(genU64(c)) })
+	}),
+	mk("map[string]uint16", true, func(c *simkit.Choices) map[string]uint16 {
+		return genMap(c, func(c *simkit.Choices) uint16 { return uint16(c.N(65536)) })
+	}),
+	mk("map[string]uint32", true, func(c *simkit.Choices) map[string]uint32 {
+		return genMap(c, func(c *simkit.Choices) uint32 { return uint32(genI(c)) })
+	}),
+	mk("map[string]uint64", true, func(c *simkit.Choices) map[string]uint64 { return genMap(c, genU64) }),
+	mk("map[string]float32", true, func(c *simkit.Choices) map[string]float32 {
+		return genMap(c, func(c *simkit.Choices) float32 { return math.Float32frombits(uint32(GenF32(c, false).F)) })
+	}),
+	foldOnly(mk("[3]int", false, func(c *simkit.Choices) [3]int { return [3]int{int(genI(c)), c.N(10), -c.N(10)} })),
+	foldOnly(mk("ArrHolder", true, func(c *simkit.Choices) ArrHolder {
+		return ArrHolder{A: [2]string{genStr(c), genStr(c)}, B: [3]Inner{genInner(c), {}, genInner(c)},
+			C: Triple{int16(c.N(65536)), 1, -1}, E: genSlice(c, func(c *simkit.Choices) [2]uint8 { return [2]uint8{uint8(c.N(256)), 7} })}
+	})),
+	mk("Embeds", true, func(c *simkit.Choices) Embeds {
+		e := Embeds{Inner: genInner(c), N: c.N(1000)}
+		if c.Bool() {
+			s := genSimple(c)
+			e.Simple = &s
+		}
+		return e
+	}),
+	mk("SmallPtrs", false, func(c *simkit.Choices) SmallPtrs {
+		var p SmallPtrs
+		if c.Bool() {
+			a, b, cc := int8(c.N(256)), uint16(c.N(65536)), c.Bool()
+			p.A, p.B, p.C = &a, &b, &cc
+		}
+		if c.Bool() {
+			d, e, f := float32(c.N(1000))/8, uint8(c.N(256)), int32(genI(c))
+			p.D, p.E, p.F = &d, &e, &f
+		}
+		return p
+	}),
 	mk("map[string]float64", true, func(c *simkit.Choices) map[string]float64 { return genMap(c, genF) }),
 	mk("map[string]interface{}", true, func(c *simkit.Choices) map[string]interface{} {
 		return genMap(c, func(c *simkit.Choices) interface{} { return genIfc(c, 1) })
@@ -1060,7 +1148,9 @@ var families = map[string][]string{
 	"named":  {"NamedSlice", "NamedMap", "NamedFields", "[]NamedSlice", "[]int", "map[string]string"},
 	"score":  {"Score", "[]Score", "map[string]Score", "Scored", "int"},
 	"packed": {"PackedU8", "PackedI8", "PackedBool", "PackedU16", "PackedI16", "PackedU32", "PackedI32", "PackedF32", "PackedMix"},
-	"simple": {"Simple", "[]Simple", "map[string]Simple", "*Simple", "Nested", "map[MyStr]Simple", "Wide"},
+	"simple": {"Simple", "[]Simple", "map[string]Simple", "*Simple", "Nested", "map[MyStr]Simple", "Wide", "Embeds"},
+	"ints": {"[]int8", "[]int16", "[]int32", "[]int64", "[]uint8", "[]uint16", "[]uint32", "[]uint64", "[]uint", "[]int", "SmallPtrs", "[3]int", "ArrHolder",
+		"map[string]int8", "map[string]int16", "map[string]int32", "map[string]int64", "map[string]uint", "map[string]uint8", "map[string]uint16", "map[string]uint32", "map[string]uint64", "map[string]float32", "map[string]float64", "[]float32", "[]float64"},
 	"kv":     {"OrderedKV", "WithKV", "map[string]string", "Strs"},
 	"folder": {"WithFolder", "InlineFolder", "InlineIfc", "InlineMap", "InlineTyped", "map[string]interface{}"},
 	"local":  {"local-A.record", "local-B.record"},
@@ -1068,7 +1158,7 @@ var families = map[string][]string{
 	"ifc":    {"interface{}", "[]interface{}", "map[string]interface{}", "[]map[string]interface{}", "Strs", "Tagged"},
 }
 
-var familyNames = []string{"wrap", "inline", "packed", "inner", "named", "score", "simple", "kv", "folder", "local", "ifc"}
+var familyNames = []string{"wrap", "inline", "ints", "packed", "inner", "named", "score", "simple", "kv", "folder", "local", "ifc"}
 
 // PickRelated draws n types; half of the time all from one family (types
 // that contain each other), else independently.
